@@ -110,13 +110,6 @@ Definition pack_names (fs : fsmap) : list string :=
 Definition loose_keys (fs : fsmap) : list oid :=
   flat_map (fun p => match p with PLoose o => [o] | _ => [] end) (keys fs).
 
-Fixpoint ids_eqb (a b : list oid) : bool :=
-  match a, b with
-  | [], [] => true
-  | x :: a', y :: b' => (x =? y) && ids_eqb a' b'
-  | _, _ => false
-  end.
-
 Definition loose_ok (fs : fsmap) (o : oid) : bool :=
   match flookup fs (PLoose o) with Some (Whole (DLoose o')) => o =? o' | _ => false end.
 
@@ -315,8 +308,9 @@ Definition loose_hash_refs (fs : fsmap) : list (string * oid) :=
   flat_map (fun n => match flookup fs (PRef n) with Some (Whole (DRef (RHash o))) => [(n, o)] | _ => [] end)
            (ssort (ref_names fs)).
 
-(* PackRefs: create packed-refs when missing; with loose refs: all refs into a
-   temp file, rename over packed-refs, then delete the loose files *)
+(* PackRefs: create packed-refs when missing; with loose refs: all hash refs
+   into a temp file, rename over packed-refs, then delete the loose files of
+   the hash references (symbolic references stay loose, as with git pack-refs) *)
 Definition op_packrefs (fs : fsmap) : list mutation :=
   (if fexists fs PPacked then [] else [MCreate PPacked])
   ++ match ref_names fs with
@@ -325,8 +319,8 @@ Definition op_packrefs (fs : fsmap) : list mutation :=
        let t := PTmp TPRefs 0 in
        let old := match packed_refs fs with Some l => l | None => [] end in
        let all := loose_hash_refs fs ++ filter (fun e => negb (is_loose_name fs (fst e))) old in
-       [MTemp t; MWrite t (DPackedRefs all); MRename t PPacked;
-        MRemoveSet (map PRef (ssort (ref_names fs)))]
+       [MTemp t] ++ (match all with [] => [] | _ => [MWrite t (DPackedRefs all)] end) ++ [MRename t PPacked]
+       ++ match map fst (loose_hash_refs fs) with [] => [] | ns => [MRemoveSet (map PRef ns)] end
      end.
 
 Definition op_setindex (es : list (bool * oid)) : list mutation :=
@@ -340,7 +334,8 @@ Definition pack_is_promisor (fs : fsmap) (n : string) : bool := fexists fs (PPac
 Definition to_repo (g : graph) (fs : fsmap) (old_loose : list oid) (old_packs : list string) : repo :=
   {| objs := g;
      loose := map (fun o => (o, mem o old_loose)) (loose_ids fs);
-     packs := map (fun p => {| p_old := existsb (String.eqb (fst p)) old_packs;
+     packs := map (fun p => {| p_name := (sort_n (snd p), 0);
+                               p_old := existsb (String.eqb (fst p)) old_packs;
                                p_promisor := pack_is_promisor fs (fst p);
                                p_objs := if idx_ok fs (fst p) (snd p) then snd p else [] |}) (pack_files fs);
      roots := ref_roots fs;
